@@ -139,6 +139,31 @@ func (e *Enc) coverObligations() []*Oblig {
 			maxAsm = rp.nAsm
 		}
 	}
+	// every loop body must be enterable under the assumptions in force (a contradictory invariant or an unsound
+	// assumption upstream would make everything inside the loop vacuously true)
+	byLoop := map[string][]retPoint{}
+	var loopNames []string
+	for i, lc := range e.loopCovers {
+		name := e.loopCoverNames[i]
+		if j := strings.Index(name, "@"); j > 0 {
+			name = name[:j]
+		}
+		if _, seen := byLoop[name]; !seen {
+			loopNames = append(loopNames, name)
+		}
+		byLoop[name] = append(byLoop[name], lc)
+	}
+	for _, name := range loopNames {
+		var rs []Term
+		mx := 0
+		for _, lc := range byLoop[name] {
+			rs = append(rs, lc.reach)
+			if lc.nAsm > mx {
+				mx = lc.nAsm
+			}
+		}
+		out = append(out, &Oblig{Name: name, Kind: "cover", Fn: e.fn.String(), Reach: tOr(rs...), NAssume: mx, Src: "some back edge of the loop reachable (loop body not vacuous)"})
+	}
 	if len(reaches) > 0 {
 		out = append(out, &Oblig{Name: "cover:anyret", Kind: "cover", Fn: e.fn.String(), Reach: tOr(reaches...), NAssume: maxAsm, Src: "some return reachable (assumptions not contradictory)"})
 	}
